@@ -74,9 +74,9 @@ type renderer struct {
 	// before a line end swallows the next line - known finding, excluded here
 	// by construction and counted).
 	afterBody bool
-	lineNo               int
-	kcount               map[string]int
-	files                map[string]string // finished included files (shared)
+	lineNo    int
+	kcount    map[string]int
+	files     map[string]string // finished included files (shared)
 }
 
 func (r *renderer) chance(knob string, rate int) bool {
